@@ -159,7 +159,7 @@ CORPUS = [
     "for a in 0..400:\n  for b in 0..251:\n    s\n",                      # 400 more
     "for a in 0..11:\n  for b in 0..9091:\n    s\n",                      # exactly one more (100001)
     "é = (((((((((((((((((((((((((((x\n",
-    'x = "a\nb" + ' + "v[" * 40 + "\n",                                  # string literal over a line break, then > 24 brackets on its closing line (seed C41-nesting-guard-string-stops-at-newline)
+    'let s = "a\nb" + ' + "v[" * 40 + "\n",                                  # string literal over a line break, then > 24 brackets on its closing line (seed C41-nesting-guard-string-stops-at-newline)
     'x = "a\n' + "(" * 30 + '"\n',                                        # brackets on the second line of a string do not count
     "/* ((((((((((((((((((((((((((",                                      # unterminated block comment: its last byte is scanned as code
 ]
